@@ -43,8 +43,17 @@ func (w *world) prune(e int) error {
 	if e <= w.prunedBelow || e > w.height() {
 		return fmt.Errorf("prune %d: outside (%d, %d]", e, w.prunedBelow, w.height())
 	}
+	// the byte size at which the sweep rotates its batch: alternately never (the whole sweep is one
+	// batch) and 1 (a batch per block, each carrying PruneBlockDataUpto for the blocks swept so far) —
+	// the database must end up the same either way
+	w.pruneCalls++
+	w.pruneRotated = w.pruneCalls%2 == 0
+	batch := 1 << 30
+	if w.pruneRotated {
+		batch = 1
+	}
 	for i, n := range w.nodes {
-		pruned, oldest, err := pruner.PruneUpto(context.Background(), n.kv, uint64(e), 1<<30)
+		pruned, oldest, err := pruner.PruneUpto(context.Background(), n.kv, uint64(e), batch)
 		if err != nil {
 			return fmt.Errorf("node %d: PruneUpto(%d): %w", i, e, err)
 		}
@@ -60,6 +69,40 @@ func (w *world) prune(e int) error {
 	w.prunedBelow = e
 	w.ops = append(w.ops, fmt.Sprintf("prune-upto %d", e))
 	return nil
+}
+
+// pruneRefused calls pruner.PruneUpto where it must change nothing: on an empty database and with a
+// bound at or below the oldest retained block (no-op: 0 blocks pruned, oldest kept unchanged, no
+// error), and with a bound above the chain (an error: the sweep reads the state update of every
+// block it prunes; run as one batch nothing is written). The caller takes the database picture
+// afterwards: it must be the one before the call, on the nodes and in the model (`prune <e>`).
+func (w *world) pruneRefused(e int) (kind, surprise string, err error) {
+	kind = "bound-at-or-below-oldest-retained"
+	switch {
+	case w.height() == 0:
+		kind = "empty-database"
+	case e > w.height():
+		kind = "bound-above-chain"
+	case e > w.prunedBelow:
+		return "", "", fmt.Errorf("pruneRefused %d: inside (%d, %d]", e, w.prunedBelow, w.height())
+	}
+	for i, n := range w.nodes {
+		pruned, oldest, perr := pruner.PruneUpto(context.Background(), n.kv, uint64(e), 1<<30)
+		switch kind {
+		case "bound-above-chain":
+			if perr == nil && surprise == "" {
+				surprise = fmt.Sprintf("node %d: PruneUpto(%d) above the chain (height %d) reports %d blocks pruned, oldest kept %d and no error", i, e, w.height(), pruned, oldest)
+			}
+		default:
+			if (perr != nil || pruned != 0 || int(oldest) != w.prunedBelow) && surprise == "" {
+				surprise = fmt.Sprintf("node %d: PruneUpto(%d) with oldest retained %d (height %d): %d blocks pruned, oldest kept %d, err %v", i, e, w.prunedBelow, w.height(), pruned, oldest, perr)
+			}
+		}
+	}
+	// (a surprise is reported by the caller AFTER the database picture was taken and compared, so that
+	// the report carries the concrete difference)
+	w.ops = append(w.ops, fmt.Sprintf("prune-upto-refused %d (%s)", e, kind))
+	return kind, surprise, nil
 }
 
 // dropCommitments deletes the commitments record of block n on every node (a damaged database).
